@@ -140,10 +140,15 @@ class RankSelection(SelectionFunction[T]):
         """
         random_value = randomness.next_float()
         bias = self.bias
-        return int(
-            len(population)
-            * ((bias - sqrt(bias**2 - (4.0 * (bias - 1.0) * random_value))) / 2.0 / (bias - 1.0))
-        )
+        if bias == 1.0:
+            # No bias, i.e., uniform selection; the formula below has a pole at 1.0.
+            position = random_value
+        else:
+            position = (
+                (bias - sqrt(bias**2 - (4.0 * (bias - 1.0) * random_value))) / 2.0 / (bias - 1.0)
+            )
+        # Rounding may yield a position of 1.0 for random values adjacent to 1.0.
+        return min(int(len(population) * position), len(population) - 1)
 
 
 class TournamentSelection(SelectionFunction[T]):
